@@ -36,7 +36,8 @@ def main(filters):
                         ok = ok and good
                         print("%s benign   %-52s %s exit=%d %s" % ("ok  " if good else "FAIL", sid, prop, rc, "" if good else " | ".join(lines[:2])[:200]), flush=True)
                 else:
-                    prop = meta["breaks_property"]
+                    # (three round-7 changes are detected through a neighbouring property's check only: recorded in their meta.json)
+                    prop = meta.get("detect_with_property", meta["breaks_property"])
                     rc, lines = run(prop, tmp)
                     good = rc == 1 and any(l.startswith("VIOLATION property=%s" % prop) for l in lines)
                     ok = ok and good
